@@ -4,44 +4,65 @@
 (* history does): the first MaxLen responses of a caller are arbitrary, a caller whose      *)
 (* context never ends gets a final (MaxLen-th) response that ends the submission, a caller  *)
 (* with a context end gets "503 for ever" after its scripted prefix (infinite scripts).     *)
+(* The http.Client configuration of the client is chosen once, in the initial state.        *)
 EXTENDS Retry, Json
 
 CONSTANTS
   Starts,      \* instants at which a caller may start
   CtxChoices,  \* context ends (a context that never ends is always among the choices)
+  HCs,         \* http.Client configurations (a subset of HCKinds)
   Rich,        \* BOOLEAN: the larger alphabet of the thorough exhaustive config
-  Sim          \* BOOLEAN: weighted alphabet of the simulation config
+  Sim,         \* BOOLEAN: weighted alphabet of the simulation config
+  WireRich     \* BOOLEAN: every wire kind and several spellings (config RetryWire: all http.Client configurations)
+
+ASSUME HCs \subseteq HCKinds
+
+\* shorthands: a 200 with body spelled sp; a wire response without a body spelling
+B200(sp) == Wire("b200", sp, "none", 0)
+K(w, rak, ov) == Wire(w, NoSpell, rak, ov)
 
 \* the alphabet of the exhaustive configs (Base = 1: one tick per second)
 SmallAlphabet ==
-  { Resp("ok", "none", 0), Resp("other", "none", 0), Resp("bad200", "none", 0), Resp("neterr", "none", 0),
-    Resp("redir", "none", 0), Resp("s408", "none", 0), Resp("s429", "none", 0), Resp("s503", "none", 0),
-    Resp("s503", "secs", 2 * Base), Resp("s429", "date", 3 * Base) }
-  \cup (IF Rich THEN { Resp("s503", "secs", 0), Resp("s429", "secs", 6 * Base),
-                       Resp("s408", "secs", 5 * Base) }   \* Retry-After on a 408 is not looked at
+  { B200("canon"), K("other", "none", 0), B200("html"), K("neterr", "none", 0),
+    K("redir", "none", 0), K("s408", "none", 0), K("s429", "none", 0), K("s503", "none", 0),
+    K("s503", "secs", 2 * Base), K("s429", "date", 3 * Base) }
+  \cup (IF Rich THEN { K("s503", "secs", 0), K("s429", "secs", 6 * Base),
+                       K("s408", "secs", 5 * Base) }   \* Retry-After on a 408 is not looked at
+        ELSE {})
+  \cup (IF WireRich THEN { B200("solidus"), B200("nested"), B200("nopad"), B200("tailgarbage"),
+                           Wire("pres", "canon", "none", 0), Wire("pres", "uescape", "none", 0),
+                           Wire("pres", "urlsafe", "none", 0), K("loop", "none", 0) }
         ELSE {})
 
-\* simulation (Base = 1000): a sequence, so that RandomElement over its indices is a weighted choice
+\* simulation (Base = 1000): a sequence, so that RandomElement over its indices is a weighted choice.  The spellings
+\* "ok?" / "bad?" stand for a legal / an illegal spelling drawn when the response is sent (Spelled)
 SimAlphabet ==
-  << Resp("ok", "none", 0), Resp("other", "none", 0),
-     Resp("bad200", "none", 0), Resp("bad200", "none", 0), Resp("neterr", "none", 0), Resp("neterr", "none", 0),
-     Resp("redir", "none", 0), Resp("s408", "none", 0), Resp("s408", "none", 0),
-     Resp("s429", "none", 0), Resp("s503", "none", 0), Resp("s503", "none", 0), Resp("s429", "none", 0),
-     Resp("s503", "secs", 0), Resp("s503", "secs", 1 * Base), Resp("s429", "secs", 3 * Base),
-     Resp("s503", "secs", 7 * Base), Resp("s429", "secs", 200 * Base), Resp("s503", "secs", -2 * Base),
-     Resp("s429", "date", 2 * Base), Resp("s503", "date", 5 * Base), Resp("s503", "date", 30 * Base),
-     Resp("s408", "secs", 9 * Base) >>
+  << B200("ok?"), K("other", "none", 0),
+     B200("bad?"), B200("bad?"), B200("bad?"), K("neterr", "none", 0), K("neterr", "none", 0),
+     K("redir", "none", 0), K("redir", "none", 0), K("s408", "none", 0), K("s408", "none", 0),
+     Wire("pres", "ok?", "none", 0), Wire("pres", "bad?", "none", 0), K("loop", "none", 0),
+     K("s429", "none", 0), K("s503", "none", 0), K("s503", "none", 0), K("s429", "none", 0),
+     K("s503", "secs", 0), K("s503", "secs", 1 * Base), K("s429", "secs", 3 * Base),
+     K("s503", "secs", 7 * Base), K("s429", "secs", 200 * Base), K("s503", "secs", -2 * Base),
+     K("s429", "date", 2 * Base), K("s503", "date", 5 * Base), K("s503", "date", 30 * Base),
+     K("s408", "secs", 9 * Base) >>
 SimSet == {SimAlphabet[i] : i \in 1..Len(SimAlphabet)}
+Spelled(r) == IF r.sp = "ok?" THEN [r EXCEPT !.sp = RandomElement(OkSpell)]
+              ELSE IF r.sp = "bad?" THEN [r EXCEPT !.sp = RandomElement(BadSpell)]
+              ELSE r
 
 Alphabet == IF Sim THEN SimSet ELSE SmallAlphabet
-TailResp == Resp("s503", "none", 0)
+TailResp == K("s503", "none", 0)
+\* wire responses that end a submission through every http.Client
+Ending(r) == (r.w = "b200" /\ r.sp \in OkSpell \cup {"ok?"}) \/ r.w = "other"
 
 RespChoices(c) ==
   IF n[c] >= MaxLen THEN {TailResp}
-  ELSE IF n[c] = MaxLen - 1 /\ ctxEnd[c] = NoEnd THEN {r \in Alphabet : r.cls \in Terminal}
+  ELSE IF n[c] = MaxLen - 1 /\ ctxEnd[c] = NoEnd THEN {r \in Alphabet : Ending(r)}
   ELSE Alphabet
 
 MCInit ==
+  /\ hc \in HCs
   /\ now = 0 /\ mult = 0 /\ notBefore = 0 /\ askUntil = 0
   /\ pc = [c \in Callers |-> "waiting"]
   /\ until \in [Callers -> Starts]
@@ -52,14 +73,14 @@ MCInit ==
   /\ n = [c \in Callers |-> 0]
   /\ lastPost = [c \in Callers |-> -1]
   /\ minNext = [c \in Callers |-> 0]
-  /\ hist = IF Record THEN << [a |-> "Init", ctx |-> ctxEnd, start |-> until] >> ELSE << >>
+  /\ hist = IF Record THEN << [a |-> "Init", ctx |-> ctxEnd, start |-> until, hc |-> hc] >> ELSE << >>
 
 MCNext ==
-  \/ \E c \in Callers : CallerStep(c) \/ \E r \in RespChoices(c) : Post(c, r)
+  \/ \E c \in Callers : CallerStep(c) \/ \E r \in RespChoices(c) : \E k \in Seen(hc, r.w, r.sp) : Post(c, r, k)
   \/ Advance
 
 \* exhaustive check: the history does not distinguish states
-StateView == <<now, mult, notBefore, pc, ctxEnd, ctxDone, until, result, lastResp, n,
+StateView == <<hc, now, mult, notBefore, pc, ctxEnd, ctxDone, until, result, lastResp, n,
                lastPost, minNext, askUntil>>
 
 LiveSpec == MCInit /\ [][MCNext]_vars /\ \A c \in Callers : WF_vars(CallerStep(c))
@@ -70,18 +91,18 @@ End == [a |-> "End"]
 Finish ==
   /\ AllDone /\ Record /\ hist[Len(hist)].a # "End"
   /\ hist' = Append(hist, End)
-  /\ UNCHANGED <<now, mult, notBefore, pc, ctxEnd, ctxDone, until, result, lastResp, n,
+  /\ UNCHANGED <<hc, now, mult, notBefore, pc, ctxEnd, ctxDone, until, result, lastResp, n,
                  lastPost, minNext, askUntil>>
 SimResp(c) == IF n[c] >= MaxLen THEN TailResp
               ELSE IF n[c] = MaxLen - 1 /\ ctxEnd[c] = NoEnd
-                     THEN RandomElement({r \in SimSet : r.cls \in Terminal})
+                     THEN Spelled(RandomElement({r \in SimSet : Ending(r)}))
                      ELSE \* the first response is never one that ends the submission (entries 1, 2)
-                          SimAlphabet[RandomElement((IF n[c] = 0 THEN 3 ELSE 1)..Len(SimAlphabet))]
+                          Spelled(SimAlphabet[RandomElement((IF n[c] = 0 THEN 3 ELSE 1)..Len(SimAlphabet))])
 SimNext ==
   \/ \E c \in Callers :
         \/ PostCtx(c) \/ Decide(c) \/ TimerFires(c) \/ CtxEnds(c) \/ CtxReturn(c)
         \/ \E j \in {RandomElement(0..(J - 1))} : StartWait(c, j)
-        \/ \E r \in {SimResp(c)} : Post(c, r)
+        \/ \E r \in {SimResp(c)} : \E k \in {RandomElement(Seen(hc, r.w, r.sp))} : Post(c, r, k)
   \/ Advance
   \/ Finish
 ExportFinished == (Record /\ Len(hist) > 1 /\ hist[Len(hist)].a = "End") =>
